@@ -78,23 +78,27 @@ CHECKS.update({
 })
 
 CHECKS.update({
-    "C20": (True, "receiver-discipline rule over resolved calls + symbolic evaluation of the plotting functions against an "
-                  "abstract axes (drawing calls logged with reachability conditions and coordinate normal forms)",
+    "C20": (True, "receiver-discipline rule over resolved calls (private helpers inlined, star-keyword dictionaries "
+                  "expanded) + symbolic evaluation of the plotting functions against an abstract axes: drawing calls logged "
+                  "with reachability conditions, coordinate normal forms and style arguments, one call site split into arms "
+                  "by the conditions inside its coordinates",
             CLAUSE + "Decides PL-RECV, PL-IDX, PL-FOOT, PL-SEG, PL-MAX, PL-DGM, PL-LIM, PL-LAND. Declines: pixel-level "
             "rendering, single-precision rounding of offsets, legend contents, the 3-D landscape plots (they discard ax).",
             SYMNOTE + "Axes methods draw on their receiver; pyplot functions on the current axes.", "DESIGN.md §4 C20"),
 })
 
 CHECKS.update({
-    "C13": (True, "literal-table validation (Legendre roots/weights), guard cut-off rule over AST + reaching definitions, "
-                  "units typing and normal forms from partial symbolic evaluation",
+    "C13": (True, "literal-table validation (Legendre roots/weights; if-chain or table-driven rules), guard cut-off rule over "
+                  "the helper-inlined AST + reaching definitions, units typing and normal forms from partial symbolic "
+                  "evaluation, dispatch decided on the observed (stubbed) calls of the closed forms and their path conditions",
             CLAUSE + "Decides KN-GL, KN-REGIME, KN-GUARD, KN-AFF, KN-UNITS, KN-NORM, KN-SBVN, KN-UNI, KN-DISPATCH. Declines: "
             "monotonicity, range [0,1], tail limits and 1e-7 agreement with a reference CDF for all arguments.",
             SYMNOTE + "Genz's bvnl constants are the specification of the guards and regimes.", "DESIGN.md §4 C13"),
 })
 
 CHECKS.update({
-    "C17": (True, "site rules over resolved calls (coercion, same-mask restriction on both axes, symmetrisation, type ladder) "
+    "C17": (True, "site rules over resolved calls on the helper-inlined view (coercion, same-mask restriction on both axes, "
+                  "pair enumeration and symmetrisation with a write-set argument for 'never symmetrised', type ladder) "
                   "+ call-graph reachability of random generators",
             CLAUSE + "Decides GH-COERCE, GH-LCC, GH-SYM, GH-INT, GH-DET. Declines: that the bounds bracket the distance (C05) "
             "and relabelling invariance of the bounds.",
@@ -122,7 +126,8 @@ CHECKS.update({
 
 CHECKS.update({
     "C03": (True, "ownership analysis of the worklist + normal forms of every emitted critical point over typed bar symbols + "
-                  "site rules (copy-of-a-depth, mutate-while-iterating)",
+                  "site rules (copy-of-a-depth, mutate-while-iterating) on the helper-inlined view + symbolic execution of "
+                  "the constructor for the degree selection",
             CLAUSE + "Decides LX-COPY, LX-SORT, LX-EDGE, LX-NOCOPY, LX-ITER, LX-DEG — necessary conditions of the sweep. The "
             "repeated-bar shortcut violates LX-NOCOPY/LX-ITER today: genuine, test-pinned defect, listed as known findings "
             "K1a/K1b (any other violation of the same rules is still reported). Declines: that cases I/II/III reproduce the "
@@ -133,13 +138,16 @@ CHECKS.update({
 
 CHECKS.update({
     "C04": (True, "symbolic evaluation of _transform with built-in and uninterpreted weight/kernel functions to a per-pixel "
-                  "normal form (loop fold, mesh flatten/reshape tracking), compared with the inclusion-exclusion formula",
+                  "normal form (loop fold, mesh flatten/reshape tracking), compared with the inclusion-exclusion formula; "
+                  "fast-path guard decided on the path conditions under which the isotropic / general evaluator is reached "
+                  "(observed calls); defaults read from a symbolically constructed imager",
             CLAUSE + "Decides PI-PIXEL (pixel = sum of weight x CDF inclusion-exclusion over the pixel's corners in "
             "birth-persistence coordinates, for every diagram size and grid, for built-in paths and arbitrary user "
             "weight/kernel), PI-AXIS, PI-UNITS, PI-FAST, PI-REG. Declines: CDF values/accuracy (C13), correlated Gaussian path.",
             SYMNOTE + "User weight/kernel callables are element-wise.", "DESIGN.md §4 C04"),
-    "C11": (True, "loop-summary (additive fold) and row-dependence analysis of the symbolically evaluated image; call-site "
-                  "argument-binding comparison; ownership analysis of the conversion sites",
+    "C11": (True, "loop-summary (additive fold) and row-dependence analysis of the symbolically evaluated image; call-style "
+                  "and serial/parallel agreement decided by symbolic execution of transform with the per-diagram routine "
+                  "observed (arguments, order, wrapping); ownership analysis of the conversion sites",
             CLAUSE + "Decides AD-FOLD (additive, order-free, zeros for empty), AD-ZERO, AD-EMPTY, AD-PAR, AD-WRAP, AD-SKEW. "
             "Declines: non-negativity and pixel-total bounds (CDF monotonicity), bit-identical serial/parallel floats.",
             SYMNOTE + "joblib preserves order.", "DESIGN.md §4 C11"),
@@ -156,7 +164,9 @@ CHECKS.update({
 
 CHECKS.update({
     "C09": (True, "inter-procedural effect/ownership analysis over all landscape operators and tools, CFG dominance of the "
-                  "lazy-cache stores, symbolic execution of the unary operators, site rules for guards/padding/re-sampling",
+                  "lazy-cache stores, symbolic execution of the unary operators, mismatch guards decided on the path "
+                  "condition of the statement returning the sum (operands with independent symbolic grids), site rules for "
+                  "padding/re-sampling on the helper-inlined view",
             CLAUSE + "Decides AR-EFFECT, AR-OWN, AR-LAZY, AR-GUARD, AR-UNARY, AR-PAD, AR-SNAP. Declines: correctness of the "
             "slope merge (sum_slopes / pos_to_slope_interp / slope_to_pos_interp) of exact landscapes for coincident abscissae "
             "and sign changes.",
@@ -165,15 +175,16 @@ CHECKS.update({
 })
 
 CHECKS.update({
-    "C08": (True, "site rules with resolved calls: delegation wiring, sibling agreement of grid reconstructions, "
-                  "nearest-node selection pattern",
+    "C08": (True, "delegation wiring decided by symbolic execution of the transformer with the landscape constructor "
+                  "observed; site rules with resolved calls on the helper-inlined view with local expansion: sibling "
+                  "agreement of grid reconstructions, nearest-node selection pattern",
             "NARROW clause-level claim — the weakest of the suite. The quantitative statement (sampled values within half a "
             "grid step of the true landscape, exact on-grid, interpolation exact) quantifies over runtime values and is NOT "
             "decided. Decided: GL-FWD (transformer forwards its own parameters and returns .values / flattened), GL-GRID "
             "(every site rebuilding a landscape's grid uses linspace(start, stop, num_steps) with the default end-point), "
             "GL-SNAP (nearest node per coordinate, same axis), GL-DV (descending deaths, hom_deg 0 only), GL-INF.",
-            "Trusted: np.linspace / np.interp semantics. Rules are tied to the present structure (delegation to "
-            "PersLandscapeApprox); a restructuring yields refutations only for the listed deviations, otherwise exit 2.",
+            "Trusted: np.linspace / np.interp semantics. Rules see through private helpers, temporaries and renaming; a "
+            "restructuring beyond that yields refutations only for the listed deviations, otherwise exit 2.",
             "DESIGN.md §4 C08"),
 })
 
